@@ -185,6 +185,10 @@ K_DOMENTRY = [
       ["value::node::Value::parse_with_padding"], kind="bounded(input length = %s)" % l)
     for n, l in [("dom_entry_error_position_len1", "1"), ("dom_entry_error_position_len2", "2"), ("dom_entry_error_position", "3"), ("dom_entry_error_position_len4", "4")]
 ]
+K_FORMAT = [
+    K("format_string_len1", "format_string == RFC 8259 escaper (bytes and length), every 1-byte ASCII string x need_quote; writes inside the 6n+35 window", ["util::string::format_string", "util::string::escape_unchecked"], kind="bounded(string length = 1)", tier="thorough", timeout=900),
+    K("format_string_len2", "same, every 2-byte ASCII string", ["util::string::format_string", "util::string::escape_unchecked"], kind="bounded(string length = 2)", tier="thorough", timeout=900),
+]
 K_UNCHECKED = [
     K("skip_string_unchecked_33", "skip_string_unchecked == scalar first-unescaped-quote scan (end offset, escape status), all 33-byte inputs over {\" \\ a} (one SIMD block + 1)",
       ["parser::Parser::skip_string_unchecked"], kind="bounded(33 bytes, 3-symbol alphabet)", tier="thorough", timeout=900),
@@ -343,10 +347,10 @@ PROPS["C10"] = {
 PROPS["C05"] = {
     "level": "proof",
     "verus": [{"unit": "formatter", "rlimit": 200}, {"unit": "serializer", "rlimit": 300}],
-    "kani": K_QUOTE,
+    "kani": K_QUOTE + K_FORMAT,
     "trusted_base": [KANI, T4, VSTD,
                      "unit formatter: std::io::Write enters as a trait with a ghost byte sequence and the contract of write_all (all bytes on Ok, a prefix on Err); the Formatter trait's default methods are verified inside an inherent impl of CompactFormatter (which uses them unchanged); declared substitution: every byte-string literal b\"..\" becomes the equal array literal (this Verus build gives byte-string literals no value)",
-                     "NOT under contract: format_string / escape_unchecked (pointer loops; CBMC does not finish, outside the Verus subset), the reserve/commit protocol of WriteExt, MapKeySerializer, SerializeStruct / tuple / variant framing (they delegate to the proved seq / map functions or to serde's default serialize_entry), number formatting (itoa / ryu: T4)",
+                     "format_string / escape_unchecked (pointer loops, outside the Verus subset): only the bounded Kani twins format_string_len1 / len2 (thorough tier, ~5 min each; check_cross_page stubbed by an arbitrary answer — both answers take the same path under debug_assertions — and fmt::format stubbed) — the 32-lane block loop (strings >= 32 bytes) is NOT decided; NOT under contract: the reserve/commit protocol of WriteExt, MapKeySerializer, SerializeStruct / tuple / variant framing (they delegate to the proved seq / map functions or to serde's default serialize_entry), number formatting (itoa / ryu: T4)",
                      "unit serializer: the formatter and the element / key / value serializers are arbitrary programs — they enter as traits whose only assumed behaviour is: a successful call appends its own events to a ghost call trace, a failed call sets a ghost `failed` flag; declared substitutions: `.map_err(Error::io)` -> `.map_io()` (same Ok/Err), `self` -> `&'a mut self` and `Self::SerializeSeq/Map` -> `Compound<'a, W, F>` (the two methods of `impl ser::Serializer for &mut Serializer` are re-hosted on an inherent impl), `fn end` -> `fn end_seq` / `fn end_map`, `*state == State::First` -> `matches!(*state, State::First)`, `key.serialize(MapKeySerializer { ser: *ser })` -> `key.serialize_as_key(&mut **ser)`; the link from the compound back to its serializer uses Verus' prophetic `mut_ref_future`"],
     "level_text": "Verus proof that the compound state machine (Serializer::serialize_seq / serialize_map, Compound::serialize_element / serialize_key / serialize_value / end) drives exactly the prescribed call sequence into the formatter — Begin, (BeginValue(first) element EndValue)*, End; a container announced empty is closed at once and only then; a failure of any formatter call or element is returned, never swallowed; Verus proof that every control-character method of the compact formatter (Formatter's default methods) and of PrettyFormatter, and `indent`, writes exactly the prescribed bytes (brackets, commas, colon; pretty: newline + indent x depth, `: `, empty containers closed at once) and that on a writer error the error is returned and what was written is a prefix of those bytes; Kani/CBMC complete proofs of the escaper tables (QUOTE_TAB, NEED_ESCAPED == RFC 8259) and the page-crossing guard",
     "level_note": "compound sequencing + per-method layout + tables + guard; the string escaper loop, the writer reserve/commit protocol and the map-key serializer are not decided",
